@@ -150,11 +150,14 @@ CONTRACTS = [
 # ---- bounded stand-in: map / array laws on small maps and arrays ------------------------------------
 
 KEYS = ['1', '1.0', '1e0', '2', '"a"', 'xs:anyURI("a")', 'xs:untypedAtomic("a")', '"b"', 'true()', 'xs:date("2000-01-01")',
-        'xs:time("12:00:00")', 'xs:double("NaN")', 'xs:float("NaN")', 'xs:dateTime("2000-01-01T00:00:00")']
+        'xs:time("12:00:00")', 'xs:double("NaN")', 'xs:float("NaN")', 'xs:dateTime("2000-01-01T00:00:00")',
+        # the same instant written in two timezones, on both sides of a year boundary: one key (op:same-key is eq for values with a timezone)
+        'xs:dateTime("2000-12-31T23:00:00-05:00")', 'xs:dateTime("2001-01-01T04:00:00Z")']
 FAMILY = {'1': ('num', 1), '1.0': ('num', 1), '1e0': ('num', 1), '2': ('num', 2), '"a"': ('str', 'a'), 'xs:anyURI("a")': ('str', 'a'),
           'xs:untypedAtomic("a")': ('str', 'a'), '"b"': ('str', 'b'), 'true()': ('bool', True), 'xs:date("2000-01-01")': ('date', 1),
           'xs:time("12:00:00")': ('time', 1), 'xs:double("NaN")': ('num', 'NaN'), 'xs:float("NaN")': ('num', 'NaN'),
-          'xs:dateTime("2000-01-01T00:00:00")': ('dateTime', 1)}
+          'xs:dateTime("2000-01-01T00:00:00")': ('dateTime', 1), 'xs:dateTime("2000-12-31T23:00:00-05:00")': ('dateTime', 2),
+          'xs:dateTime("2001-01-01T04:00:00Z")': ('dateTime', 2)}
 # pairs of key types whose Python values are equal with equal hashes although op:same-key is false (one root cause each, see known_findings.json)
 COLLIDING = {frozenset(('bool', 'num')): 'xs:boolean true() and the number 1 are the same key of the underlying dict',
              frozenset(('date', 'dateTime')): 'an xs:date and the xs:dateTime of its starting instant are the same key of the underlying dict'}
